@@ -632,7 +632,7 @@ def _main(run, tier):
         info = {"int16": (-(1 << 15), (1 << 15) - 1), "uint16": (0, (1 << 16) - 1), "int32": (-(1 << 31), (1 << 31) - 1),
                 "uint32": (0, (1 << 32) - 1), "int64": (-(1 << 63), (1 << 63) - 1)}[dt]
         vals = [v for m in mags for v in (m, -m) if info[0] <= v <= info[1] and abs(v) < (1 << 31)]
-        for v in (vals if not quick or dt != "int16" else vals[::2]):
+        for v in (vals if not quick or dt in ("uint16", "int32") else vals[::2]):
             cfg = random_cfg(rng, 600)
             n = cfg["od"] * cfg["kh"] * cfg["kw"] * cfg["id"]
             oor_jobs.append({"id": len(oor_jobs), "kind": "vol", "cfg": cfg, "dtype": dt, "poke": [[rng.randrange(n), v]],
